@@ -51,7 +51,7 @@ namespace c20 {
     {
         std::string s = "ins,size,empty,clear,con";
         if ( Caps::emplace ) s += ",emp";
-        if ( K != GK_NOGC ) s += ",insf";
+        if ( K != GK_NOGC || map ) s += ",insf";
         if ( Caps::findf ) s += ",fnd";
         if ( Caps::upd == 1 ) s += ",upd";
         if ( Caps::upd == 2 ) s += ",upd,ups";
@@ -337,7 +337,11 @@ namespace c20 {
         template <gc_kind K> void emp( int k, int v, KOut& o, kind_<K> ) { o.res = b2s( s->emplace( k, v )); }
         bool do_emp( int k, int v, KOut& o, bool_<true> ) { emp( k, v, o, kind_<Env::kind>()); return true; }
         bool do_emp( int, int, KOut&, bool_<false> ) { return false; }
-        bool insf( int k, int v, KOut& o, kind_<GK_NOGC> ) { return false; }
+        bool insf( int k, int v, KOut& o, kind_<GK_NOGC> )
+        {
+            o.res = b2s( s->insert_with( k, [&o, v]( value_type& p ) { p.second = v; o.calls += call_I( p.first, p.second ); } ) != s->end());
+            return true;
+        }
         template <gc_kind K> bool insf( int k, int v, KOut& o, kind_<K> )
         {
             o.res = b2s( s->insert_with( k, [&o, v]( value_type& p ) { p.second = v; o.calls += call_I( p.first, p.second ); } ));
